@@ -393,6 +393,201 @@ def la_family(run, r, n):
     return stats
 
 
+def uf_family(run, r, n):
+    """Equality / congruence rules and the *_simplify rules: correct instances, single-field near misses and, for the
+    simplification rules, guessed right-hand sides.  Every accepted step is judged by Z3 on premises => conclusion over
+    uninterpreted sorts and functions, integers and reals (z3oracle.entails; search oracle)."""
+    import z3oracle
+    from kernel.type import IntType, RealType
+    from kernel.term import Int, Real
+    from kernel import term as kterm
+    try:
+        basic.load_theory('real')
+    except RecursionError:
+        raise
+    except Exception as e:
+        run.stat('uf_setup:' + type(e).__name__)
+        return dict(cases=0)
+    devnull = io.StringIO()
+    S = TVar('s')
+    xs = [Var(nm, S) for nm in ('x', 'y', 'z', 'u', 'w')]
+    f1 = Var('f', TFun(S, S))
+    g2 = Var('g', TFun(S, S, S))
+    P1 = Var('P', TFun(S, BoolType))
+    R2 = Var('R', TFun(S, S, BoolType))
+    ps = [Var(nm, BoolType) for nm in ('p', 'q', 'r')]
+    iv = [Var(nm, IntType) for nm in ('i', 'j', 'k')]
+    rv = [Var(nm, RealType) for nm in ('a', 'b', 'c')]
+    stats = dict(cases=0, accepted=0, judged=0, valid=0)
+
+    def sterm(d=1):
+        c = r.random()
+        if d == 0 or c < 0.45:
+            return r.choice(xs)
+        if c < 0.75:
+            return f1(sterm(d - 1))
+        return g2(sterm(d - 1), sterm(d - 1))
+
+    def offer(rule, args, prevs, origin):
+        if rule not in theory.global_macros:
+            run.stat('uf:missing:' + rule)
+            return
+        stats['cases'] += 1
+        macro = theory.global_macros[rule]
+        try:
+            with contextlib.redirect_stdout(devnull):
+                th = macro.eval(tuple(args), list(prevs))
+            err = None
+        except RecursionError:
+            raise
+        except Exception as e:
+            th, err = None, type(e).__name__
+        run.stat('uf:%s:%s:%s' % (rule, origin, 'accepted' if th is not None else err))
+        run.count(('uf', rule, tuple(sstr(a) for a in args), tuple(sstr(p) for p in prevs)), nontrivial=th is not None)
+        if th is None:
+            return
+        stats['accepted'] += 1
+        extra = [h for h in th.hyps if not any(h in p.hyps for p in prevs)]
+        if extra:
+            run.violation('property', '%s introduces hypotheses that no premise has: %s' % (rule, [sstr(h) for h in extra]),
+                          dict(rule=rule, args=[sstr(a) for a in args], prevs=[sstr(p) for p in prevs], result=sstr(th)), key='C18:%s:hyps' % rule)
+        res = z3oracle.entails([p.prop for p in prevs], th.prop)
+        if res is None:
+            run.stat('uf:undecided:' + rule)
+            return
+        stats['judged'] += 1
+        if res is True:
+            stats['valid'] += 1
+            return
+        run.violation('property', '%s accepts a step whose conclusion does not follow from its premises: %s |- %s' % (
+                          rule, [sstr(p.prop) for p in prevs], sstr(th.prop)),
+                      dict(rule=rule, args=[sstr(a) for a in args], args_repr=[repr(a) for a in args], prevs=[sstr(p) for p in prevs],
+                           result=sstr(th), counter_model=res, origin=origin,
+                           reproduce="theory.global_macros['%s'].eval(tuple(args), prevs)" % rule),
+                      key='C18:%s:invalid' % rule)
+
+    def flip(e):
+        return Eq(e.rhs, e.lhs) if r.random() < 0.5 else e
+
+    def bform(d=2, pool=None):
+        pool = pool or (ps + [true, false])
+        c = r.random()
+        if d == 0 or c < 0.3:
+            return r.choice(pool)
+        if c < 0.45:
+            return Not(bform(d - 1, pool))
+        if c < 0.65:
+            return And(bform(d - 1, pool), bform(d - 1, pool))
+        if c < 0.8:
+            return Or(bform(d - 1, pool), bform(d - 1, pool))
+        if c < 0.9:
+            return Implies(bform(d - 1, pool), bform(d - 1, pool))
+        return Eq(bform(d - 1, pool), bform(d - 1, pool))
+
+    def subterms(t):
+        yield t
+        if t.is_comb():
+            for a_ in t.args:
+                yield from subterms(a_)
+
+    def aexp(T, d=2):
+        num = Int if T == IntType else Real
+        vs_ = iv if T == IntType else rv
+        c = r.random()
+        if d == 0 or c < 0.35:
+            return r.choice(vs_) if r.random() < 0.5 else num(r.choice([0, 0, 1, 1, 2, 3, -1]))
+        if c < 0.55:
+            return kterm.plus(T)(aexp(T, d - 1), aexp(T, d - 1))
+        if c < 0.7:
+            return kterm.times(T)(aexp(T, d - 1), aexp(T, d - 1))
+        if c < 0.85:
+            return kterm.minus(T)(aexp(T, d - 1), aexp(T, d - 1))
+        if c < 0.93 or T == IntType:
+            return kterm.uminus(T)(aexp(T, d - 1))
+        return kterm.divides(T)(aexp(T, d - 1), num(r.choice([1, 2, 1])))
+    for _ in range(n):
+        # ---- equality chains
+        k = r.choice([2, 3, 4])
+        ts = [sterm(1) for _ in range(k + 1)]
+        eqs = [flip(Eq(ts[i], ts[i + 1])) for i in range(k)]
+        goal = flip(Eq(ts[0], ts[-1]))
+        offer('verit_eq_transitive', [Not(e) for e in eqs] + [goal], [], 'correct')
+        bad = list(eqs)
+        j = r.randrange(k)
+        c = r.random()
+        if c < 0.4:
+            bad[j] = flip(Eq(ts[j], sterm(1)))
+        elif c < 0.7:
+            del bad[j]
+        else:
+            r.shuffle(bad)
+        if len(bad) >= 2:
+            offer('verit_eq_transitive', [Not(e) for e in bad] + [goal], [], 'near')
+        offer('verit_eq_transitive', [Not(e) for e in eqs] + [flip(Eq(ts[0], sterm(1)))], [], 'near')
+        offer('verit_trans', [goal], [Thm(e, HYP) for e in eqs], 'correct')
+        offer('verit_trans', [goal], [Thm(e, HYP) for e in bad], 'near')
+        offer('verit_eq_reflexive', [Eq(ts[0], ts[0] if r.random() < 0.5 else ts[1])], [], 'mixed')
+        # ---- congruence
+        ar = r.choice([1, 2])
+        a_ = [sterm(1) for _ in range(ar)]
+        b_ = [sterm(1) for _ in range(ar)]
+        fa, fb = (f1(a_[0]), f1(b_[0])) if ar == 1 else (g2(*a_), g2(*b_))
+        pr = [flip(Eq(x_, y_)) for x_, y_ in zip(a_, b_)]
+        offer('verit_eq_congruent', [Not(e) for e in pr] + [flip(Eq(fa, fb))], [], 'correct')
+        offer('verit_eq_congruent', [Not(e) for e in pr[:-1]] + [Eq(fa, fb)], [], 'near')
+        if ar == 2:
+            offer('verit_eq_congruent', [Not(e) for e in pr] + [Eq(g2(*a_), g2(b_[1], b_[0]))], [], 'near')
+        offer('verit_cong', [Eq(fa, fb)], [Thm(e, HYP) for e in pr], 'correct')
+        offer('verit_cong', [Eq(fa, fb)], [Thm(e, HYP) for e in pr[:-1]], 'near')
+        Pa, Pb = (P1(a_[0]), P1(b_[0])) if ar == 1 else (R2(*a_), R2(*b_))
+        offer('verit_eq_congruent_pred', [Not(e) for e in pr] + [Not(Pa), Pb], [], 'correct')
+        offer('verit_eq_congruent_pred', [Not(e) for e in pr] + [Pa, Pb], [], 'near')
+        offer('verit_eq_congruent_pred', [Not(e) for e in pr[:-1]] + [Not(Pa), Pb], [], 'near')
+        # ---- linear-arithmetic equalities
+        T = r.choice([IntType, RealType])
+        x_, y_ = aexp(T, 1), aexp(T, 1)
+        le = kterm.less_eq(T)
+        offer('verit_la_disequality', [Or(Eq(x_, y_), Not(le(x_, y_)), Not(le(y_, x_)))], [], 'correct')
+        offer('verit_la_disequality', [Or(Eq(x_, y_), Not(le(x_, y_)), Not(le(x_, y_)))], [], 'near')
+        offer('verit_la_disequality', [Or(Eq(x_, y_), le(x_, y_), Not(le(y_, x_)))], [], 'near')
+        offer('verit_la_rw_eq', [Eq(Eq(x_, y_), And(le(x_, y_), le(y_, x_)))], [], 'correct')
+        offer('verit_la_rw_eq', [Eq(Eq(x_, y_), And(le(x_, y_), le(x_, y_)))], [], 'near')
+        # ---- simplification rules with guessed right sides
+        lhs = bform(r.choice([1, 2, 3]))
+        cands = [true, false] + list(subterms(lhs))[:6] + [Not(t_) for t_ in list(subterms(lhs))[:3]]
+        if lhs.is_conj() or lhs.is_disj():
+            mem = lhs.strip_conj() if lhs.is_conj() else lhs.strip_disj()
+            for j in range(len(mem)):
+                rest = mem[:j] + mem[j + 1:]
+                if rest:
+                    cands.append(And(*rest) if lhs.is_conj() else Or(*rest))
+        r.shuffle(cands)
+        for rule in ('verit_not_simplify', 'verit_and_simplify', 'verit_or_simplify', 'verit_implies_simplify', 'verit_equiv_simplify',
+                     'verit_bool_simplify', 'verit_eq_simplify', 'verit_ac_simp', 'verit_connective_def'):
+            for rhs in cands[:5]:
+                offer(rule, [Eq(lhs, rhs)], [], 'guessed')
+        c_, a1, a2 = bform(1), sterm(1), sterm(1)
+        ite = logic.mk_if(c_, a1, a2)
+        for rhs in (a1, a2, ite, logic.mk_if(Not(c_), a2, a1), logic.mk_if(c_, a2, a1)):
+            offer('verit_ite_simplify', [Eq(ite, rhs)], [], 'guessed')
+        bite = logic.mk_if(c_, bform(1), bform(1))
+        for rhs in [true, false] + list(subterms(bite))[:5] + [Not(c_), And(c_, bite.args[1]), Or(Not(c_), bite.args[1]), Or(c_, bite.args[2])]:
+            offer('verit_ite_simplify', [Eq(bite, rhs)], [], 'guessed')
+        e = aexp(T, r.choice([1, 2]))
+        num = Int if T == IntType else Real
+        acands = [num(v) for v in (0, 1, 2, 3, -1)] + list(subterms(e))[:6] + [kterm.uminus(T)(t_) for t_ in list(subterms(e))[1:3]]
+        r.shuffle(acands)
+        for rule in ('verit_sum_simplify', 'verit_prod_simplify', 'verit_minus_simplify', 'verit_unary_minus_simplify', 'verit_div_simplify'):
+            for rhs in acands[:5]:
+                offer(rule, [Eq(e, rhs)], [], 'guessed')
+        cmpc = r.choice([kterm.less, kterm.less_eq, kterm.greater, kterm.greater_eq])(T)
+        l_, r_ = aexp(T, 1), aexp(T, 1)
+        cl = cmpc(l_, r_)
+        for rhs in (true, false, Not(kterm.less_eq(T)(r_, l_)), kterm.less_eq(T)(r_, l_), Not(kterm.less(T)(r_, l_)), kterm.less(T)(r_, l_), cl):
+            offer('verit_comp_simplify', [Eq(cl, rhs)], [], 'guessed')
+    return stats
+
+
 def run_check(tier, seed):
     run = Run(PROP, 'proof', tier, seed)
     proof_stage(run, PROP)
@@ -489,6 +684,7 @@ def run_check(tier, seed):
                        '(literal dropped/added/negated/permuted, premise shape changed, premise shortened/lengthened, wrong pivot); '
                        'non-trivial = accepted by macro.eval; distinct = distinct (rule, args, premises)' % len(templates(g)))
     run.cov['search_la_generic'] = la_family(run, r, 150 if tier == 'quick' else 2500)
+    run.cov['search_equality_and_simplify'] = uf_family(run, r, 25 if tier == 'quick' else 400)
     run.assumptions = ['non-propositional subterms are opaque atoms in the truth-table oracle (equality/UF/quantifier rules are not exercised)',
                        'la_generic: validity of an accepted clause is decided by Z3 on the clause (search oracle, no theorem); the quantifier rules are not covered']
     return run.finish()
